@@ -11,6 +11,7 @@ import copy
 import itertools
 import os
 import random
+import sys
 
 from .. import canon
 from ..seams import SIM
@@ -118,11 +119,29 @@ def tie_block():
     return out
 
 
+def gen_long(rng, tier="quick"):
+    """Many co-optimal solutions: n symmetric binaries, exactly k of them set, objective 0 for every such
+    assignment.  The enumeration has to yield all C(n, k) of them, one solve each.  `headroom`: the segment
+    runs with that many stack frames left (aldy driven from deep inside a caller's stack - the interpreter's
+    recursion limit is a resource of the environment like any other); the thorough tier also enumerates more
+    than a thousand solutions under the default limit."""
+    shapes = [(10, 5, 150), (11, 4, 150), (10, 4, 120)]
+    if tier == "thorough":
+        shapes += [(13, 5, None), (12, 6, None), (11, 5, 300)]
+    n, k, headroom = rng.choice(shapes)
+    return {"bins": [f"A_{j}_0" for j in range(n)],
+            "errs": [{"name": "E_0", "coefs": {str(j): 1 for j in range(n)}, "target": k, "w": 1}],
+            "card": [{"idx": list(range(n)), "op": "==", "k": k}], "order": [], "lin": {}, "prods": [],
+            "gap": 0, "limit": None, "long": True, "headroom": headroom}
+
+
 def gen_plan(rng, tier, i, seed):
     cfg = TIERS[tier]
     models = [gen_model(rng) for _ in range(cfg["models"])]
     if i % 8 == 1:
         models = tie_block()
+    if i % 24 == 5:
+        models = [gen_long(rng, tier)]
     plan = {
         "segments": [
             {
@@ -234,6 +253,7 @@ def update_stats(acc, plan, out):
         for k in ("ties", "truncated", "w2", "w3_models", "w3_yields", "multi_yield", "name_collisions",
                   "helper_checks"):
             acc[k] += st[k]
+        acc["longest_enumeration"] = max(acc.get("longest_enumeration", 0), st.get("long_enumerations", 0))
 
 
 def sample_view(plan, out):
@@ -262,6 +282,7 @@ def evidence(acc):
                 "helper_value_checks": acc["helper_checks"],
                 "w3_aldy_built_models": acc["w3_models"],
                 "w3_yields_monitored": acc["w3_yields"],
+                "longest_enumeration_yields": acc.get("longest_enumeration", 0),
             },
             "components": {
                 "real": ["aldy.lpinterface (model(), CBC wrapper, solutions(), abssum, prod, getValue)",
@@ -753,14 +774,28 @@ def run_segment(seg):
             if sum(1 for o in table.values() if abs(o - best) < 1e-9) > 1:
                 stats["ties"] += 1
         # --- fault-free reference configuration: plain CBC
-        SIM.reset({"max_solves": 4000, "max_wall": 90.0, "monitor": True})
-        r = _guard(viol, "plain", _run_enum, m, table, "plain", viol, unsound, stats, sample)
+        SIM.reset({"max_solves": 4000, "max_wall": 240.0 if m.get("long") else 90.0, "monitor": True})
+        old_limit = sys.getrecursionlimit()
+        if m.get("headroom"):
+            depth, f = 0, sys._getframe()
+            while f is not None:
+                depth, f = depth + 1, f.f_back
+            sys.setrecursionlimit(depth + m["headroom"])
+            SIM.fire("stack_headroom_limited")
+        try:
+            r = _guard(viol, "plain", _run_enum, m, table, "plain", viol, unsound, stats, sample)
+        finally:
+            sys.setrecursionlimit(old_limit)
+        merge_fired()
         runs += 1
         if r is None:
             continue
         plain, nsolves = r
         for f in SIM.monitor_failures:
             viol.append({"clause": f["clause"], "detail": dict(f, mode="plain", model=m)})
+        if m.get("long"):
+            stats["long_enumerations"] = max(stats.get("long_enumerations", 0), len(plain))
+            continue  # (one solve per solution: the other solver behaviours are exercised on the small models)
         # --- adversarial vertex choice
         for a in seg["advs"]:
             SIM.reset({"max_solves": 4000, "max_wall": 90.0, "adversary": a, "monitor": True})
